@@ -6,8 +6,9 @@ ID = "C08"
 COQ_FILES = ["Common/Corr.v", "Model/Reporter.v", "Proofs/Reporter.v", "Props/C08.v"]
 PROPS = "Props/C08.v"
 THEOREMS = ["C08_reporter_mutex", "C08_abort_latches", "C08_later_calls_return_latched",
-            "C08_accept_all_invalid_source", "C08_warnings_inert", "C08_warnings_erasable",
-            "C08_success_iff_no_error", "C08_sub_handler_sound", "C08_no_deadlock"]
+            "C08_accept_all_invalid_source", "C08_never_abort_invalid_source", "C08_warnings_inert",
+            "C08_success_iff_no_error", "C08_sub_handler_sound", "C08_no_deadlock", "C08_chain_fuel_enough",
+            "C08_run_order_reachable"]
 AXIOMS_OK = []
 TRUSTED = ["hand-written small-step Gallina model of reporter.Handler (Model/Reporter.v): root mutex with explicit lock / "
            "unlock steps, one atomic step per sub-handler update and per Error()/ReporterError() read; sync.Mutex is "
@@ -20,7 +21,8 @@ ASSUMPTIONS = ["the pipeline stages (parser, linker, options) are not modelled: 
                "the handler and that Compile fails whenever the root handler has an error is tied in by the end-to-end runs "
                "only (P-core for the clause a compilation succeeds only if no error was reported)",
                "HandleError(nil) is outside the model (no caller passes nil)",
-               "the user's reporter is a function of the call index and of the reported error, and returns"]
+               "the user's reporter is a total function of the call index and of the reported error (a reporter that panics or "
+               "never returns is outside the model)"]
 
 # ----------------------------------------------------------------------------------------------
 # operations: (h, kind, tag, via)   kind 0 positional 1 plain 2 warning 3 Error() 4 ReporterError()
@@ -210,7 +212,7 @@ class Sim:
                     break
         return sched, res, calls, [[self.error_result(h), h[0]] for h in s[0]]
 
-    def find_schedule(self, obs_res, obs_calls, obs_hfinal, check_calls, limit=400000):
+    def find_schedule(self, obs_res, obs_calls, obs_hfinal, check_calls, limit=60000):
         """depth-first search for a step-level schedule that reproduces the observation"""
         sys.setrecursionlimit(100000)
         seen = set()
@@ -418,7 +420,7 @@ def gen_spec(rng, kind):
         f = files[0]
         if not any(not u for _, u in f["imports"]) and f["syntax"] != "none":
             f["syntax"] = "none"
-    if kind in ("invalid", "cycle", "missing"):
+    if kind in ("invalid", "cycle") or (kind == "missing" and rng.chance(1, 2)):
         for _ in range(rng.range(1, 7)):
             files[rng.below(n)]["items"].append(rng.choice(ERR_ITEMS))
     spec = {"files": files, "kind": kind, "extra": {}}
@@ -505,13 +507,13 @@ def run(ctx):
                 ops = [(h, k, j + 1, (j + h) % 3) for j, (h, k) in enumerate(combo)]
                 seq_cases.append(([0], abort, [ops], [0] * n))
     # random structured: several threads, handler trees, random global order
-    for _ in range(ctx.budget(900, 20000)):
+    for _ in range(ctx.budget(600, 20000)):
         nt = rng.range(1, 4)
         parents, abort, threads = gen_ops_case(rng, nt, 7, 5)
         order = rng.shuffle([t for t, p in enumerate(threads) for _ in p])
         seq_cases.append((parents, abort, threads, order))
     conc_cases = []
-    for k in range(ctx.budget(450, 6000)):
+    for k in range(ctx.budget(300, 6000)):
         nt = rng.range(2, 4)
         parents, abort, threads = gen_ops_case(rng, nt, 5, 4)
         conc_cases.append((parents, abort, threads, k + 1))
